@@ -51,6 +51,35 @@ impl Compiler {
                 Ok(())
             }
 
+            Expression::PrivateIn(private_in) => {
+                let (class_brand, _info) = self
+                    .lookup_private_member(&private_in.name.name)
+                    .ok_or_else(|| {
+                        JsError::syntax_error_simple(format!(
+                            "Private field '{}' must be declared in an enclosing class",
+                            private_in.name.name
+                        ))
+                    })?;
+                let obj_reg = self.builder.alloc_register()?;
+                self.compile_expression(&private_in.object, obj_reg)?;
+                let field_name_idx = self
+                    .builder
+                    .add_string(private_in.name.name.cheap_clone())?;
+                self.builder.emit(Op::HasPrivateField {
+                    dst,
+                    obj: obj_reg,
+                    class_brand,
+                    field_name: field_name_idx,
+                });
+                self.builder.free_register(obj_reg);
+                Ok(())
+            }
+
+            Expression::NewTarget(_) => {
+                self.builder.emit(Op::LoadNewTarget { dst });
+                Ok(())
+            }
+
             Expression::Super(_) => {
                 // Super is typically used in member access or calls, handled separately
                 Err(JsError::syntax_error_simple(
